@@ -555,25 +555,16 @@ fn run_tamper(plan: &Plan, lib: &dyn Lib, rec: &mut Rec) {
         let sig_w = if plain && wire_sig != Codec::Bytes { crate::sc_codec::forge_point_in_codec(rec, lib, g, Ty::Signature, wire_sig, &sig, &sig[1..], &tt.sig[1..]).or_else(|| if tt.sig == sig { recode(rec, lib, g, Ty::Signature, Codec::Bytes, wire_sig, &sig).first().map(|b| b.to_vec()) } else { None }) } else { None };
         let pk_w = if plain && wire_pk != Codec::Bytes { crate::sc_codec::forge_point_in_codec(rec, lib, g, Ty::PublicKey, wire_pk, &a.pk, &a.pk, &tt.pk).or_else(|| if tt.pk == a.pk { recode(rec, lib, g, Ty::PublicKey, Codec::Bytes, wire_pk, &a.pk).first().map(|b| b.to_vec()) } else { None }) } else { None };
         let out = c.at(2, || {
-            // the verifier decodes what arrived in the codec it arrived in; a refusal to decode is a rejection
-            let s_in = match &sig_w {
-                Some(w) => match recode(rec, lib, g, Ty::Signature, wire_sig, Codec::Bytes, w) {
-                    Out::Ok(v) => v[0].clone(),
-                    o => return o,
-                },
-                None => tt.sig.clone(),
-            };
-            let p_in = match &pk_w {
-                Some(w) => match recode(rec, lib, g, Ty::PublicKey, wire_pk, Codec::Bytes, w) {
-                    Out::Ok(v) => v[0].clone(),
-                    o => return o,
-                },
-                None => tt.pk.clone(),
-            };
+            // the verifier decodes what arrived in the codec it arrived in and verifies THOSE values (no detour through the
+            // byte form, whose decoder would check the points once more); a refusal to decode is a rejection
             if sig_w.is_some() || pk_w.is_some() {
                 rec.probe("perturbed-tuple-delivered-in-another-codec");
+                let (cs, sb) = match &sig_w { Some(w) => (wire_sig, w.clone()), None => (Codec::Bytes, tt.sig.clone()) };
+                let (cp, pb) = match &pk_w { Some(w) => (wire_pk, w.clone()), None => (Codec::Bytes, tt.pk.clone()) };
+                rec.call(lib, g, Op::VerifyIn, &[&[cs as u8], &sb, &[cp as u8], &pb, &tt.msg])
+            } else {
+                rec.call(lib, g, Op::Verify, &[&tt.sig, &tt.pk, &tt.msg])
             }
-            rec.call(lib, g, Op::Verify, &[&s_in, &p_in, &tt.msg])
         });
         let exp = ref_decision(g, &draft, &tt);
         let changed = tt.pk != a.pk || tt.msg != msg || tt.sig != sig;
